@@ -475,4 +475,4 @@ def run():
     ck.assumptions += ["NUL characters are excluded from executed strings (SQLite's API ends the statement text at NUL)",
                        "float spellings in the end-to-end stream are exact in binary64 or have at most 17 significant digits",
                        "date/time literals are generated valid (the lexer accepts any digit shape; 13th months are a C10-style question)"]
-    ck.finish(TRUSTED, "escape/lexer models: all strings of length <= %d over %d characters (quotes, backslash, newline, comment markers, ;, non-ASCII) plus random longer ones, every one distinct, non-trivial = contains a quote or backslash; literal decoding: every quote style/escape form/raw/f-string spelling of %d values, number spellings, dates; end-to-end: each spelling compiled for sqlite and generic and executed, in select / filter / array-literal / f-string-hole skeletons" % (n_ex, len(ALPHA), len(vals_pool)))
+    ck.finish(TRUSTED, "escape/lexer models: all strings of length <= %d over %d characters (quotes, backslash, newline, comment markers, ;, non-ASCII) plus random longer ones, every one distinct, non-trivial = contains a quote or backslash; literal decoding: every quote style/escape form/raw/f-string spelling of %d values, number spellings, dates; end-to-end: each spelling compiled for sqlite and generic and executed, in select / filter / array-literal / f-string-hole skeletons; for all 12 dialects: prqlc's literal text for every enumerated string = the model's, every dialect's sqlparser tokenizer reads its text back (bigquery excepted: F6c), token structure of the statement around a literal in select / relation-literal / WHERE / f-string contexts" % (n_ex, len(ALPHA), len(vals_pool)))
